@@ -4,7 +4,7 @@ import re
 import z3
 
 from props.common import *
-from props.env import install_env, path_id
+from props.env import install_env, path_id, fs_fact, fs_axioms
 
 
 def _channel(eng, ops):
@@ -126,14 +126,16 @@ def _check_arms(ctx, eng, paths, cv, driver):
             else:
                 ctx.passed("C02: Link(text, to) creates the link `to` with the recorded target text")
         elif kind == "Special":
-            ex = [e for e in p.trace if e.name == "Path::exists"]
+            ex = [e for e in p.trace if e.name.startswith("Path::")]
             rm = [e for e in p.trace if e.name == "remove_file"]
             cn = [e for e in p.trace if e.name == "copy_node"]
             noclob = cv["no_clobber"].t
             if not ex or pn(ex[0]) != ["op_to"]:
                 ctx.fail("C08/C14: the worker probes the destination of a special file", str(names))
                 continue
-            existed = ex[0].ret.t
+            # the fact the lemmas are about is "something exists at the destination", whichever probe the code uses
+            existed = fs_fact("exists", "op_to")
+            p.pc = p.pc + fs_axioms("op_to")
             if is_err(p.ret):
                 ctx.lemma(eng, "C08: the special-file arm refuses only for an existing destination under no-clobber", p.pc, z3.And(existed, noclob))
                 if rm or cn:
